@@ -21,7 +21,8 @@ PROP = {
         "Known_C01 (Model/KnownC01.v = harness known_c01): K1 effective scheme is file (F-C01-1,2,3,7,11: host dropped before a drive letter, leading empty segments stripped, '/.' cases, 'C|' after an explicit empty host - all in url/tests/expected_failures.txt or of that family); K2 a drive-letter-shaped segment in the input or the base path of a non-file URL (F-C01-5/9); K3 a backslash in the input of a non-special URL (F-C01-8: '\\' ends the port); K4 the input contains ':@' (F-C01-12: empty username and password before '@' accepted)",
     ],
     "theorem_notes": {
-        "C01_statement": "stated, not proved (equivalence of two ~800-line programs); proved parts: C01_sets, C01_schemes, C01_preprocessing, C01_override_independent",
+        "C01_statement": "stated, not proved in full (equivalence of two ~800-line programs); proved parts: C01_sets, C01_schemes, C01_preprocessing, C01_override_independent, C01_eq_cleaning, C01_eq_encoders, C01_eq_scheme_state and the class theorems below",
+        "C01_eq_opaque": "equivalence PROVED for the class in_class_opaque (recogniser on the Standard's side: no base, the cleaned text has a non-special scheme and the text after ':' does not start with '/'), every scalar-value input incl. tab/LF/CR anywhere and C0/space at the ends; restrictions named in the statement: usv_list input (Rust &str), and the model may answer ParseError::Overflow (serialization > u32::MAX) where the Standard succeeds - otherwise POk with the same ten API strings; no host function involved",
     },
 }
 
